@@ -397,16 +397,41 @@ def _vi_has_info(c) -> bool:
     return has_type or bool(c["metadata_props"]) or bool(c["doc_string"])
 
 
+def _complete_from_tensor(vi, t):
+    """'value-info is added for initializers': an entry of an initializer without type / without shape is
+    completed from the tensor (element type, dims)."""
+    import onnx
+    out = onnx.ValueInfoProto()
+    out.CopyFrom(vi)
+    tp = out.type
+    if tp.WhichOneof("value") is None:
+        tp.tensor_type.elem_type = t.data_type
+    leaf = tp
+    while leaf.WhichOneof("value") in ("sequence_type", "optional_type"):
+        inner = getattr(leaf, leaf.WhichOneof("value"))
+        if not inner.HasField("elem_type"):
+            return out
+        leaf = inner.elem_type
+    w = leaf.WhichOneof("value")
+    if w in ("tensor_type", "sparse_tensor_type") and not getattr(leaf, w).HasField("shape"):
+        sh = getattr(leaf, w).shape
+        sh.ClearField("dim")
+        for d in t.dims:
+            sh.dim.add().dim_value = d
+    return out
+
+
 def _canon_vinfos(vinfos, io, referenced, initializers):
     import onnx
     kept = []
     names = set()
+    inits = {t.name: t for t in initializers}
     for v in vinfos:
         c = canon(v)
         if _vi_has_info(c):
             names.add(v.name)
             if v.name in referenced and v.name not in io:
-                kept.append(c)
+                kept.append(canon(_complete_from_tensor(v, inits[v.name])) if v.name in inits else c)
     for t in initializers:
         if t.name and t.name not in io and t.name not in names:
             vi = onnx.ValueInfoProto(name=t.name)
@@ -1201,8 +1226,38 @@ def replay_known(ck) -> None:
 
 # =========================================================================== shrinking
 
-def shrink(kind: str, p, fails) -> object:
-    """Greedy structural shrinking: clear singular fields / drop repeated elements while `fails(p)` holds."""
+def wf_batch(ck, kind: str, protos: list) -> list[bool]:
+    """Coq's wf on a batch of protos (False for protos outside the Proto datatypes)."""
+    printer, wf = KINDS[kind][1], KINDS[kind][6]
+    terms, idx = [], []
+    for i, p in enumerate(protos):
+        try:
+            terms.append(printer(p))
+            idx.append(i)
+        except Unsupported:
+            pass
+    out = [False] * len(protos)
+    if not terms:
+        return out
+    text = CASE_HEADER + "Eval vm_compute in (map (fun p => " + wf + " p) " + clist(terms) + ").\n"
+    rc, res = ck.coq_eval(text, f"wf_batch_{kind}", 300)
+    if rc != 0:
+        raise RuntimeError("wf batch did not compile:\n" + res[-2000:])
+    import re
+    m = re.search(r"=\s*\[([^\]]*)\]", res)
+    vals = [v.strip() == "true" for v in m.group(1).split(";")] if m and m.group(1).strip() else []
+    for i, v in zip(idx, vals):
+        out[i] = v
+    return out
+
+
+def shrink(ck, kind: str, p, fails, need_wf: bool = True, budget_s: float = 60.0) -> object:
+    """Greedy structural shrinking: clear singular fields / drop repeated elements while `fails(p)` holds
+    and (need_wf) the candidate is still a supported proto according to Coq's wf (checked in batches, so
+    the reported witness is never an unsupported proto)."""
+    import time
+    t0 = time.time()
+
     def candidates(msg):
         for fd, v in msg.ListFields():
             is_rep = fd.is_repeated if hasattr(fd, "is_repeated") else (fd.label == fd.LABEL_REPEATED)
@@ -1218,11 +1273,11 @@ def shrink(kind: str, p, fails) -> object:
                     yield from candidates(v)
     cur = type(p)()
     cur.CopyFrom(p)
-    progress, rounds = True, 0
-    while progress and rounds < 40:
-        progress = False
-        rounds += 1
+    for _ in range(30):
+        if time.time() - t0 > budget_s:
+            break
         n = len(list(candidates(cur)))
+        failing = []
         for idx in range(n):
             trial = type(p)()
             trial.CopyFrom(cur)
@@ -1238,10 +1293,18 @@ def shrink(kind: str, p, fails) -> object:
                 msg.ClearField(name)
             try:
                 if fails(trial):
-                    cur, progress = trial, True
-                    break
+                    failing.append(trial)
             except Exception:  # noqa: BLE001
                 continue
+        if not failing:
+            break
+        failing.sort(key=lambda t: t.ByteSize())
+        failing = failing[:40]
+        ok = wf_batch(ck, kind, failing) if need_wf else [True] * len(failing)
+        nxt = next((t for t, w in zip(failing, ok) if w), None)
+        if nxt is None:
+            break
+        cur = nxt
     return cur
 
 
@@ -1333,10 +1396,10 @@ def report_failures(ck, kind: str, bad: list[tuple[dict, int]]) -> None:
                     ck.known_finding(key, ck.known(key)["what"])
                     continue
                 sig = (code, tuple(d.split(":")[0] for d in diffs[:3]))
-                if sig in seen:
+                if sig in seen or len(ck.violations) >= 2:
                     continue
                 seen.add(sig)
-                small = shrink(kind, p, lambda t: bool(oracle_case(kind, t)) and classify_known(oracle_case(kind, t)) is None)
+                small = shrink(ck, kind, p, lambda t: bool(oracle_case(kind, t)) and classify_known(oracle_case(kind, t)) is None)
                 ck.violation({"kind": kind, "proto_b64": proto_b64(small), "proto_text": str(small)[:4000],
                               "differences": oracle_case(kind, small), "coq_diagnosis": what,
                               "mutation": c.get("mutation")})
@@ -1371,7 +1434,7 @@ def run(ck) -> None:
     ck.notes.append("principal theorem partial: proved stages dims/shapes/types, tensors, value-info, attributes "
                     "(all kinds), nodes in a scope stack; missing: graph/scoping, function, model — for those the "
                     "case files evaluate wf p -> norm (ser (deser p)) = norm p on every generated proto")
-    n_models = 90 if not ck.thorough else 1500
+    n_models = 200 if not ck.thorough else 1500
     # 1. corpus
     corpus_dir = os.path.join(common.CORPUS, "C02")
     corpus_cases: dict[str, list[dict]] = {k: [] for k in KINDS}
@@ -1430,7 +1493,7 @@ def run(ck) -> None:
             continue
         if ck.violations:
             break
-        small = shrink(kind, c["proto"], lambda t: bool(oracle_case(kind, t)) and classify_known(oracle_case(kind, t)) is None)
+        small = shrink(ck, kind, c["proto"], lambda t: bool(oracle_case(kind, t)) and classify_known(oracle_case(kind, t)) is None)
         ck.violation({"kind": kind, "proto_b64": proto_b64(small), "proto_text": str(small)[:4000],
                       "differences": oracle_case(kind, small), "coq_diagnosis": "python oracle"})
     # 5. broken obligation / correspondence without a concrete failing input: search harder
@@ -1459,7 +1522,7 @@ def search(ck) -> None:
         ck.count()
         diffs = oracle_case(kind, p)
         if diffs and not (classify_known(diffs) and ck.known(classify_known(diffs))):
-            small = shrink(kind, p, lambda t: bool(oracle_case(kind, t)) and classify_known(oracle_case(kind, t)) is None)
+            small = shrink(ck, kind, p, lambda t: bool(oracle_case(kind, t)) and classify_known(oracle_case(kind, t)) is None)
             ck.violation({"kind": kind, "proto_b64": proto_b64(small), "proto_text": str(small)[:4000],
                           "differences": oracle_case(kind, small), "coq_diagnosis": "search after broken obligation",
                           "broken": ck.broken_items})
